@@ -74,6 +74,9 @@ func evalDistance(c *core.Ctx, tabs *Tables, key string, fn *types.Func) *distEv
 	if sum == nil {
 		sum = loopOver(ev, "q.Seq")
 	}
+	if sum == nil && len(ev.Loops) == 1 {
+		sum = ev.Loops[0] // an index loop `for i := 0; i < len(seq); i++` instead of a range loop
+	}
 	if sum == nil {
 		c.Und(key, fn.Pos(), "no column loop over a record sequence")
 		return nil
@@ -353,9 +356,10 @@ func c07Counts(c *core.Ctx, tabs *Tables) {
 			})
 		}
 	}
-	c.Floor("R3/count-source", nAssign, 8)
+	// no floor: the assignments may live in a helper (`fr.setBaseCounts(&counting)`); that the scoring reader's counts are
+	// those of the sequence is decided by interpretation (R7/D/ReadEncodeScoreAlignment/layout-independent-records)
+	c.Count("count_field_assignments", nAssign)
 	c.Ob("R3/list-reader-writes-no-counts", writers["ReadEncodeAlignmentToList"] == 0, funcPos(c, "pkg/fastaio", "ReadEncodeAlignmentToList"), "the query reader fills base counts, so frequencies would not be the target's")
-	c.Ob("R3/score-reader-writes-counts", writers["ReadEncodeScoreAlignment"] >= 8, funcPos(c, "pkg/fastaio", "ReadEncodeScoreAlignment"), "the scoring reader fills %d count fields (expected 4 at each of the two emission sites)", writers["ReadEncodeScoreAlignment"])
 	// composite literals must not set counts either
 	// who feeds the distance functions: query = caller's record parameter, target = value received from the channel
 	for _, fname := range []string{"findClosest", "findClosestN"} {
